@@ -13,6 +13,7 @@ mod c14;
 mod c10;
 mod c11;
 mod c11csv;
+mod c11g;
 mod c15;
 mod c17;
 mod c18;
